@@ -11,9 +11,10 @@ import (
 // Random well-formed schemas built as a schemadump.Schema tree.  mode:
 //   clean  – inside the hypotheses of the round-trip theorem; since their repair this includes interfaces
 //            implementing interfaces, repeatable directives, deprecated arguments / input fields,
-//            @specifiedBy, reason: null and directive/type name collisions
-//   lossy  – additionally one of: @oneOf, escapes / quotes in deprecation reasons, block-string defaults
-//            ending in a quote, redeclared built-ins, non-root Mutation/Subscription objects (1 in 6: any)
+//            @specifiedBy, reason: null, directive/type name collisions, non-root objects named
+//            Mutation / Subscription and block-string defaults ending in a quote or backslash
+//   lossy  – additionally one of: @oneOf, escapes / quotes in deprecation reasons, redeclared built-ins
+//            (1 in 6: any)
 //   malformed – one well-formedness rule broken (unresolved type, missing root, duplicate name …)
 type sgen struct {
 	r     *common.Rand
@@ -45,8 +46,8 @@ func (g *sgen) on(what string) bool {
 	return g.lossy && (g.only == "" || g.only == what)
 }
 
-var repaired = map[string]bool{"iface": true, "repeatable": true, "ivdep": true, "specified": true, "null": true, "collision": true}
-var lossyKinds = []string{"oneof", "escapes", "blockquote", "builtin", "rootname"}
+var repaired = map[string]bool{"iface": true, "repeatable": true, "ivdep": true, "specified": true, "null": true, "collision": true, "rootname": true, "blockquote": true}
+var lossyKinds = []string{"oneof", "escapes", "builtin"}
 
 func (g *sgen) wrap(base string, maxDepth int) *sd.Ty {
 	t := sd.Named(base)
@@ -67,7 +68,7 @@ func (g *sgen) wrap(base string, maxDepth int) *sd.Ty {
 var plainStrings = []string{"abc", "hello world", "", "with, comma", "brack]et [x", "cur}ly {y", "co:lon", "#hash", "caf\xc3\xa9 \xc3\xbc", "$dollar -minus 1.5e3", "true", "a  b"}
 var escapedStrings = []string{`a\"b`, `tab\tx`, `nl\nx`, `back\\slash`, `\u00e9 x`, `q\\\"`, `\"`, `\\`, `end\\`, `x\/y`}
 var blockStrings = []string{"block text", "multi\nline", "multi\n  indented\nlines", `has "quote" inside`, `esc \""" triple`, "x", `back\slash`, "tab\there"}
-var blockTrailingQuote = []string{`say "hi"`, `"`, `a""`}
+var blockTrailingQuote = []string{`say "hi"`, `"`, `a""`, `a\`, `end\\`, `x\"`, `"q" "`}
 
 func (g *sgen) strVal() *sd.Val {
 	switch k := g.r.Pick(10); {
